@@ -2,13 +2,21 @@
 (* httputil.Wrap(h, m1..mn): "Middlewares will be called in the same order   *)
 (* in which they were specified" -- the first half of property C20.          *)
 (*                                                                           *)
-(* Build phase = httputil.go Wrap as written:                                *)
+(* The caller owns a backing array `arr` of middlewares (with `spare` unused  *)
+(* slots behind the list: a Go slice with spare capacity) and passes         *)
+(* sub-slices of it to Wrap with `mws[a:b]...`, i.e. WITHOUT a copy.  Wrap   *)
+(* as written (httputil.go) only reads its argument:                         *)
 (*     wrapped = h; for i := len(mws)-1; i >= 0; i-- { wrapped = mws[i].Wrap(wrapped) }  *)
-(* A handler value is the list of middleware indices a request meets, from   *)
-(* the outermost inwards, the base handler h being the empty list; m.Wrap(x) *)
-(* puts m in front of x.  Two Wrap calls can be nested (Wrap(Wrap(h,         *)
-(* m[s+1..n]), m[1..s])), which must be the same as one call with the whole  *)
-(* list.  Serve phase = one request walking down that structure and back up. *)
+(* A handler value is the list of middlewares a request meets, from the      *)
+(* outermost inwards, the base handler h being the empty list; m.Wrap(x)     *)
+(* puts m in front of x.                                                     *)
+(*                                                                           *)
+(* One round = two nested Wrap calls over the same array,                    *)
+(*     Wrap(Wrap(h, arr[k+1..n]...), arr[1..j]...)        (k <= j <= n)      *)
+(* (j > k: the sub-slices overlap and the middlewares k+1..j are met twice)  *)
+(* followed by one request walking down the resulting handler and back up.   *)
+(* Rounds are repeated over the SAME array: every call must yield the order  *)
+(* of the list as the caller wrote it, and the array must never change.      *)
 (*                                                                           *)
 (* Middleware kinds:                                                         *)
 (*   pass     records its visit, calls next once                             *)
@@ -18,61 +26,91 @@
 (*            value, calls next (its visit shows as a header value)          *)
 (* Base handlers: "rec" records its visit and answers 200 "h";  "plain" is   *)
 (* the real httputil.PlainTextHandler (text/plain, explicit 200, the text).  *)
+(*                                                                           *)
+(* Variant # "asWritten" is a design mutation TLC must refute:               *)
+(*   forward         the loop runs forwards                                  *)
+(*   reverseInPlace  slices.Reverse(mws) and then a forward loop: right the  *)
+(*                   first time, but the caller's array is reversed, so the  *)
+(*                   next Wrap over it is wrong                              *)
+(*   appendInPlace   Wrap appends an internal middleware to its argument:    *)
+(*                   with spare capacity (or a sub-slice) that overwrites    *)
+(*                   the caller's next slot                                  *)
 EXTENDS Integers, Sequences, FiniteSets, TLC
 
-CONSTANTS MaxN,      \* longest middleware list
-          Kinds,     \* middleware kinds used
-          HKinds,    \* base handler kinds used
-          Reverse    \* BOOLEAN design mutation: the loop of Wrap runs forwards
+CONSTANTS MaxN,       \* longest middleware list
+          Kinds,      \* middleware kinds used
+          HKinds,     \* base handler kinds used
+          Spares,     \* set of spare capacities tried
+          MaxOverlap, \* j - k is at most this
+          Rounds,     \* successive rounds over the same array
+          Variant
 
-VARIABLES mws,       \* the middleware list (kinds), index = position in the argument list
+VARIABLES mws,       \* kind of middleware number x (its number = its position in the list as written)
           hk,        \* base handler kind
-          split,     \* the inner Wrap call gets m[split+1..n], the outer one m[1..split]
+          k, j,      \* the inner Wrap call gets arr[k+1..n], the outer one arr[1..j]
+          arr,       \* the caller's backing array: middleware numbers, 0 = unused slot, -1 = foreign
+          round,
           phase,     \* "inner", "outer" (the two Wrap calls), "serve", "done"
           i,         \* loop variable of the running Wrap call (1-based; 0 = loop over)
           wrapped,   \* handler value built so far
           pos, dir,  \* serve: depth in `wrapped`, going "down" or "up"
-          visits,    \* visit log: <<"pre", k>>, <<"post", k>>, <<"h">>
+          visits,    \* visit log: <<"pre", x>>, <<"post", x>>, <<"h">>
           server,    \* values of the Server response header, in order
           resp       \* [status, body, ctype] as the client sees it
 
-vars == <<mws, hk, split, phase, i, wrapped, pos, dir, visits, server, resp>>
+vars == <<mws, hk, k, j, arr, round, phase, i, wrapped, pos, dir, visits, server, resp>>
 
-SeqsUpTo(S, n) == UNION {[1..k -> S] : k \in 0..n}
+SeqsUpTo(S, n) == UNION {[1..m -> S] : m \in 0..n}
+Upto(n) == [x \in 1..n |-> x]
+Rev(s) == [x \in 1..Len(s) |-> s[Len(s) - x + 1]]
+Min(a, b) == IF a < b THEN a ELSE b
+N == Len(mws)
 
 NoResp == [status |-> 200, body |-> "", ctype |-> ""]
 
-(* first index of the loop of a Wrap call over m[lo..hi], or 0 if the list is empty *)
-First(lo, hi) == IF lo > hi THEN 0 ELSE IF Reverse THEN lo ELSE hi
+(* what a Wrap call over arr[lo..hi] does to the caller's array before its loop *)
+Prologue(a, lo, hi) ==
+    CASE Variant = "reverseInPlace" ->
+           [x \in 1..Len(a) |-> IF x >= lo /\ x <= hi THEN a[lo + hi - x] ELSE a[x]]
+      [] Variant = "appendInPlace" /\ hi < Len(a) -> [a EXCEPT ![hi + 1] = -1]
+      [] OTHER -> a
+Forwards == Variant \in {"forward", "reverseInPlace"}
+(* first index of the loop of a Wrap call over arr[lo..hi], or 0 if the list is empty *)
+First(lo, hi) == IF lo > hi THEN 0 ELSE IF Forwards THEN lo ELSE hi
 
 Init == /\ mws \in SeqsUpTo(Kinds, MaxN)
         /\ hk \in HKinds
-        /\ split \in 0..Len(mws)
+        /\ k \in 0..Len(mws)
+        /\ j \in k..Min(Len(mws), k + MaxOverlap)
+        /\ \E sp \in Spares :
+             arr = Prologue(Upto(Len(mws)) \o [x \in 1..sp |-> 0], k + 1, Len(mws))
+        /\ round = 1
         /\ phase = "inner"
-        /\ i = First(split + 1, Len(mws))
+        /\ i = First(k + 1, Len(mws))
         /\ wrapped = <<>>
         /\ pos = 0 /\ dir = "down"
         /\ visits = <<>> /\ server = <<>> /\ resp = NoResp
 
-(* one iteration of the loop of Wrap: wrapped = m.Wrap(wrapped) *)
+(* one iteration of the loop of Wrap: wrapped = arr[i].Wrap(wrapped) *)
 LoopStep(lo, hi) ==
     /\ i # 0
-    /\ wrapped' = <<i>> \o wrapped
-    /\ i' = IF Reverse THEN (IF i = hi THEN 0 ELSE i + 1)
-                       ELSE (IF i = lo THEN 0 ELSE i - 1)
-    /\ UNCHANGED <<mws, hk, split, phase, pos, dir, visits, server, resp>>
+    /\ wrapped' = IF arr[i] > 0 THEN <<arr[i]>> \o wrapped ELSE wrapped
+    /\ i' = IF Forwards THEN (IF i = hi THEN 0 ELSE i + 1)
+                        ELSE (IF i = lo THEN 0 ELSE i - 1)
+    /\ UNCHANGED <<mws, hk, k, j, arr, round, phase, pos, dir, visits, server, resp>>
 
-InnerStep == phase = "inner" /\ LoopStep(split + 1, Len(mws))
+InnerStep == phase = "inner" /\ LoopStep(k + 1, N)
 InnerReturn == /\ phase = "inner" /\ i = 0
                /\ phase' = "outer"
-               /\ i' = First(1, split)
-               /\ UNCHANGED <<mws, hk, split, wrapped, pos, dir, visits, server, resp>>
-OuterStep == phase = "outer" /\ LoopStep(1, split)
+               /\ arr' = Prologue(arr, 1, j)
+               /\ i' = First(1, j)
+               /\ UNCHANGED <<mws, hk, k, j, round, wrapped, pos, dir, visits, server, resp>>
+OuterStep == phase = "outer" /\ LoopStep(1, j)
 OuterReturn == /\ phase = "outer" /\ i = 0
                /\ phase' = "serve" /\ pos' = 1 /\ dir' = "down"
-               /\ UNCHANGED <<mws, hk, split, i, wrapped, visits, server, resp>>
+               /\ UNCHANGED <<mws, hk, k, j, arr, round, i, wrapped, visits, server, resp>>
 
-Kind(k) == mws[wrapped[k]]
+Kind(p) == mws[wrapped[p]]
 
 (* the request enters the handler at depth pos *)
 Down ==
@@ -91,7 +129,7 @@ Down ==
                                         ELSE [status |-> 200, body |-> "plain", ctype |-> "text/plain"]
               /\ server' = server
               /\ dir' = "up" /\ pos' = pos - 1
-    /\ UNCHANGED <<mws, hk, split, phase, i, wrapped>>
+    /\ UNCHANGED <<mws, hk, k, j, arr, round, phase, i, wrapped>>
 
 (* the call made at depth pos returns *)
 Up ==
@@ -101,65 +139,76 @@ Up ==
          ELSE /\ visits' = IF Kind(pos) = "prepost" THEN Append(visits, <<"post", wrapped[pos]>>) ELSE visits
               /\ pos' = pos - 1
               /\ phase' = phase
-    /\ UNCHANGED <<mws, hk, split, i, wrapped, dir, server, resp>>
+    /\ UNCHANGED <<mws, hk, k, j, arr, round, i, wrapped, dir, server, resp>>
 
-Next == InnerStep \/ InnerReturn \/ OuterStep \/ OuterReturn \/ Down \/ Up
+(* the caller wraps again, over the same array *)
+NextRound ==
+    /\ phase = "done" /\ round < Rounds
+    /\ round' = round + 1
+    /\ phase' = "inner"
+    /\ arr' = Prologue(arr, k + 1, N)
+    /\ i' = First(k + 1, N)
+    /\ wrapped' = <<>>
+    /\ pos' = 0 /\ dir' = "down"
+    /\ visits' = <<>> /\ server' = <<>> /\ resp' = NoResp
+    /\ UNCHANGED <<mws, hk, k, j>>
+
+Next == InnerStep \/ InnerReturn \/ OuterStep \/ OuterReturn \/ Down \/ Up \/ NextRound
 Spec == Init /\ [][Next]_vars
 
 ----------------------------------------------------------------------------
-(* The property, on the visit log alone (no reference to `wrapped`). *)
-N == Len(mws)
-Shorts == {k \in 1..N : mws[k] = "short"}
-Stop == IF Shorts = {} THEN N ELSE CHOOSE k \in Shorts : \A j \in Shorts : k <= j
-Reached == 1..Stop                                   \* the middlewares the request must meet
-Visible(k) == mws[k] # "srvhdr"
+(* The property, in terms of the list AS THE CALLER WROTE IT (no reference  *)
+(* to `arr` or `wrapped`).                                                   *)
 
+(* the middlewares the two calls were given, outermost first *)
+EffOf(n, kk, jj) == Upto(jj) \o [x \in 1..(n - kk) |-> kk + x]
+StopOf(m, eff) == LET sh == {p \in 1..Len(eff) : m[eff[p]] = "short"}
+                  IN IF sh = {} THEN Len(eff) ELSE CHOOSE p \in sh : \A q \in sh : p <= q
+ReachedOf(m, eff) == SubSeq(eff, 1, StopOf(m, eff))       \* what the request must meet, in order
+HasShort(m, eff) == \E p \in 1..Len(eff) : m[eff[p]] = "short"
+
+Eff == EffOf(N, k, j)
 Pre(v)  == SelectSeq(v, LAMBDA e : e[1] = "pre")
 Post(v) == SelectSeq(v, LAMBDA e : e[1] = "post")
-IdxOf(v) == [j \in 1..Len(v) |-> v[j][2]]
-Ascending(s) == \A a, b \in 1..Len(s) : a < b => s[a] < s[b]
-Descending(s) == \A a, b \in 1..Len(s) : a < b => s[a] > s[b]
-Range(s) == {s[j] : j \in 1..Len(s)}
-HPos == {j \in 1..Len(visits) : visits[j][1] = "h"}
+IdxOf(v) == [x \in 1..Len(v) |-> v[x][2]]
+HPos == {x \in 1..Len(visits) : visits[x][1] = "h"}
 
-(* m1 ... mn in that order, then h; nothing behind a short-circuit *)
+(* m1 ... mn in that order, then h; nothing behind a short-circuit; returns in reverse *)
 VisitOrder == phase = "done" =>
-    /\ Ascending(IdxOf(Pre(visits)))
-    /\ Range(IdxOf(Pre(visits))) = {k \in Reached : Visible(k)}
-    /\ Ascending(server) /\ Range(server) = {k \in Reached : ~Visible(k)}
-    /\ (Shorts = {} /\ hk = "rec") => /\ Cardinality(HPos) = 1
-                                        /\ \A j \in HPos : Len(Pre(SubSeq(visits, 1, j))) = Len(Pre(visits))
-    /\ Shorts # {} => HPos = {} /\ resp.status = 403
-    /\ Descending(IdxOf(Post(visits)))
-    /\ Range(IdxOf(Post(visits))) = {k \in Reached : mws[k] = "prepost"}
+    /\ IdxOf(Pre(visits)) = SelectSeq(ReachedOf(mws, Eff), LAMBDA x : mws[x] # "srvhdr")
+    /\ server = SelectSeq(ReachedOf(mws, Eff), LAMBDA x : mws[x] = "srvhdr")
+    /\ (~HasShort(mws, Eff) /\ hk = "rec") =>
+           /\ Cardinality(HPos) = 1
+           /\ \A x \in HPos : Len(Pre(SubSeq(visits, 1, x))) = Len(Pre(visits))
+    /\ HasShort(mws, Eff) => HPos = {} /\ resp.status = 403
+    /\ IdxOf(Post(visits)) = Rev(SelectSeq(ReachedOf(mws, Eff), LAMBDA x : mws[x] = "prepost"))
+
+(* Wrap never modifies what it was given (nor the slots behind it) *)
+CallerListIntact == /\ SubSeq(arr, 1, N) = Upto(N)
+                    /\ \A x \in (N + 1)..Len(arr) : arr[x] = 0
 
 (* The same as a closed formula: the one visit log Wrap allows. *)
-Upto(n) == [k \in 1..n |-> k]
-Rev(s) == [k \in 1..Len(s) |-> s[Len(s) - k + 1]]
-ExpectedVisitsOf(m, h) ==
-    LET sh == {k \in 1..Len(m) : m[k] = "short"}
-        st == IF sh = {} THEN Len(m) ELSE CHOOSE k \in sh : \A j \in sh : k <= j
-        pre == SelectSeq(Upto(st), LAMBDA k : m[k] # "srvhdr")
-        post == Rev(SelectSeq(Upto(st), LAMBDA k : m[k] = "prepost"))
-    IN [k \in 1..Len(pre) |-> <<"pre", pre[k]>>]
-       \o (IF sh = {} /\ h = "rec" THEN << <<"h">> >> ELSE <<>>)
-       \o [k \in 1..Len(post) |-> <<"post", post[k]>>]
-ExpectedServerOf(m) ==
-    LET sh == {k \in 1..Len(m) : m[k] = "short"}
-        st == IF sh = {} THEN Len(m) ELSE CHOOSE k \in sh : \A j \in sh : k <= j
-    IN SelectSeq(Upto(st), LAMBDA k : m[k] = "srvhdr")
-ExpectedRespOf(m, h) ==
-    IF \E k \in 1..Len(m) : m[k] = "short" THEN [status |-> 403, body |-> "short", ctype |-> ""]
+ExpectedVisitsOf(m, eff, h) ==
+    LET r == ReachedOf(m, eff)
+        pre == SelectSeq(r, LAMBDA x : m[x] # "srvhdr")
+        post == Rev(SelectSeq(r, LAMBDA x : m[x] = "prepost"))
+    IN [x \in 1..Len(pre) |-> <<"pre", pre[x]>>]
+       \o (IF ~HasShort(m, eff) /\ h = "rec" THEN << <<"h">> >> ELSE <<>>)
+       \o [x \in 1..Len(post) |-> <<"post", post[x]>>]
+ExpectedServerOf(m, eff) == SelectSeq(ReachedOf(m, eff), LAMBDA x : m[x] = "srvhdr")
+ExpectedRespOf(m, eff, h) ==
+    IF HasShort(m, eff) THEN [status |-> 403, body |-> "short", ctype |-> ""]
     ELSE IF h = "rec" THEN [status |-> 200, body |-> "h", ctype |-> ""]
     ELSE [status |-> 200, body |-> "plain", ctype |-> "text/plain"]
-ClosedForm == phase = "done" => /\ visits = ExpectedVisitsOf(mws, hk)
-                                /\ server = ExpectedServerOf(mws)
-                                /\ resp = ExpectedRespOf(mws, hk)
+ClosedForm == phase = "done" => /\ visits = ExpectedVisitsOf(mws, Eff, hk)
+                                /\ server = ExpectedServerOf(mws, Eff)
+                                /\ resp = ExpectedRespOf(mws, Eff, hk)
 
-(* nobody is visited twice, at any time *)
-AtMostOnce == \A a, b \in 1..Len(visits) : a # b => visits[a] # visits[b]
+(* without overlap nobody is visited twice, at any time *)
+AtMostOnce == j = k => \A a, b \in 1..Len(visits) : a # b => visits[a] # visits[b]
 
 TypeOK == /\ phase \in {"inner", "outer", "serve", "done"}
           /\ pos \in 0..(Len(wrapped) + 1)
           /\ i \in 0..N
+          /\ round \in 1..Rounds
 =============================================================================
